@@ -456,7 +456,8 @@ def run_history(hist, stats=None):
                     if stats is not None:
                         stats["resume_dir_reset_strategy_mismatch"] = stats.get("resume_dir_reset_strategy_mismatch", 0) + 1
                     prev = None
-                if prev is None or not cfg["resume"]:
+                if prev is None or not (cfg["resume"] or cfg["dry_run"]):
+                    # (a dry run writes neither samples nor the marker: what an earlier run left stays authoritative)
                     env.dirinfo[cfg["odir"]] = (cfg["save_strategy"], len(R._sseq))
             obs = invoke(env, cfg)
             if stats is not None:
